@@ -1,4 +1,4 @@
 SPECIFICATION Spec
-CONSTANTS Tier = "small" PadFix = FALSE AppendFix = TRUE PoolFix = TRUE
+CONSTANTS Tier = "small" PadFix = FALSE AppendFix = TRUE PoolFix = TRUE FinalizerFix = TRUE
 INVARIANTS NotBad
 CHECK_DEADLOCK FALSE
